@@ -109,9 +109,17 @@ def st_program(draw, max_blocks=6):
             prog.append(["label", "START_B"])
     counter = [0]
 
+    used_labels = set()
+
     def fresh_label():
         counter[0] += 1
-        base = draw(st.sampled_from(LABEL_NAMES))
+        base = draw(st.sampled_from(LABEL_NAMES + ["R", "C", "Q", "M", "done", "Done", "DONE", "exit", "EXIT"]))
+        # sometimes the bare name (a single bank letter is a legal label; names that differ only in letter case are different labels)
+        if base not in used_labels and not base.endswith("_") and (base in ("R", "C", "Q", "M") or draw(st.integers(0, 2)) == 0):
+            used_labels.add(base)
+            return base
+        if base in ("R", "C", "Q", "M"):
+            base = "L"  # a bank letter followed by digits would be a register, not a label
         return f"{base}{counter[0]}"
 
     small = st.integers(0, 6)
